@@ -237,7 +237,8 @@ func c06GenReal(c *hmain.Ctx, cfgs []c06Cfg, bufs []int, randContent func(lines,
 	// 10. compressed jobs (which 6 | 7). lsof scenario (realjob.go) 0 = no lsof in PATH (no fork), 1 = the stub reports readers
 	//     only, 2 = a writer holds the file (not read, the job is done), 3 = lsof finds nobody, 4 = readers only and a path
 	//     with the letter w, 5 = a writer, then a write notification and a pass without the writer, 6 = a writer, then a
-	//     maintenance tick. Every stream takes every scenario.
+	//     maintenance tick (resumes the job: /repo fix d780bcb) and the pass, 7 = as 6 with remove_after expired. Every
+	//     stream takes every scenario.
 	//     10a. exhaustive small scope: every content over {a,\n} up to zLen x every split into two frames x read buffer 1..3 x
 	//          saved offsets: none, every line end, two streams, behind the end
 	zLen := 4
@@ -245,7 +246,7 @@ func c06GenReal(c *hmain.Ctx, cfgs []c06Cfg, bufs []int, randContent func(lines,
 		zLen = 6
 	}
 	nz := 0
-	zScen := []int{0, 1, 2, 3, 4, 5, 6}
+	zScen := []int{0, 1, 2, 3, 4, 5, 6, 7}
 	zcase := func(max int, cut bool, offs []int64, frames [][]byte, bufsz, lsof int) hx.Sx {
 		os := make([]hx.Sx, len(offs))
 		for i, o := range offs {
@@ -274,7 +275,7 @@ func c06GenReal(c *hmain.Ctx, cfgs []c06Cfg, bufs []int, randContent func(lines,
 					cf := cfgs[nz%len(cfgs)]
 					lsof := zScen[(nz/3)%len(zScen)]
 					c.W.Count(fmt.Sprintf("lz4-exhaustive: lsof=%d", lsof))
-					c.Do("lz4-exhaustive", 6+nz%2, zcase(cf.max, cf.cut, offs, [][]byte{body[:cutAt], body[cutAt:]}, bufsz, lsof), len(ends) > 0 && lsof != 2 && lsof != 6)
+					c.Do("lz4-exhaustive", 6+nz%2, zcase(cf.max, cf.cut, offs, [][]byte{body[:cutAt], body[cutAt:]}, bufsz, lsof), len(ends) > 0 && lsof != 2)
 				}
 			}
 		}
@@ -326,30 +327,33 @@ func c06GenReal(c *hmain.Ctx, cfgs []c06Cfg, bufs []int, randContent func(lines,
 		}
 		c.W.Count(fmt.Sprintf("lz4-random: saved streams=%d skipped buffers>=%d", len(offs), min(skips/4*4, 8)))
 		c.W.Count(fmt.Sprintf("lz4-random: lsof=%d", lsof))
-		c.Do("lz4-random", 6+r.Intn(2), zcase(max, cut, offs, frames, bs, lsof), len(ends) > 0 && lsof != 2 && lsof != 6)
+		c.Do("lz4-random", 6+r.Intn(2), zcase(max, cut, offs, frames, bs, lsof), len(ends) > 0 && lsof != 2)
 	}
 
 	//     10c. REPAIRED DEFECT C06-lz4-being-written (notes/finding-C06-lz4-being-written.md, /repo fix 353d84e): nobody writes
 	//          to the lz4 file (lsof reports file.d's own read descriptor only) but its path contains the letter w:
 	//          isNotFileBeingWritten took ANY w in the lsof answer for write access and worker.work left its jobs loop (break):
 	//          nothing of the file was ever delivered and the worker was gone. Only the FD column counts now; a file that
-	//          really is being written (scenarios 2, 5, 6) is marked done and read after the next write notification.
+	//          really is being written (scenarios 2, 5, 6, 7) is marked done and read after the next write notification or
+	//          maintenance tick.
 	for _, bufsz := range []int{1, 3, 64} {
 		for ci, cf := range cfgs {
 			frames := [][]byte{[]byte("ab\nc"), []byte("d\n\nefg")}
 			c.Do("lz4-path-with-w", 6+ci%2, zcase(cf.max, cf.cut, nil, frames, bufsz, 4), true)
 			for _, lsof := range []int{2, 5, 6} {
-				c.Do("lz4-being-written", 6+ci%2, zcase(cf.max, cf.cut, nil, frames, bufsz, lsof), lsof == 5)
-				c.Do("lz4-being-written", 6+ci%2, zcase(cf.max, cf.cut, []int64{3}, frames, bufsz, lsof), lsof == 5)
+				c.Do("lz4-being-written", 6+ci%2, zcase(cf.max, cf.cut, nil, frames, bufsz, lsof), lsof != 2)
+				c.Do("lz4-being-written", 6+ci%2, zcase(cf.max, cf.cut, []int64{3}, frames, bufsz, lsof), lsof != 2)
 			}
 		}
 	}
-	//     10d. PROPOSED FINDING (notes/finding-C06-lz4-being-written-followup.md), emitted once listed: the job of an lz4
-	//          file that was being written is done with nothing read; maintenanceJob never resumes a compressed job, and with
-	//          remove_after set its zero EOF time stamp gets the unread file removed by the next tick (scenario 7)
-	if c06KnownListed(lz4StrandedFinding) {
+	//     10d. REPAIRED DEFECT C06-lz4-being-written-removed-unread (notes/finding-C06-lz4-being-written-followup.md, /repo fix
+	//          d780bcb): the job of an lz4 file that was being written is done with nothing read; maintenanceJob never resumed
+	//          a compressed job, and with remove_after set its zero EOF time stamp got the unread file removed by the next
+	//          tick (scenario 7). The tick resumes such a job now: the file is read, not removed.
+	for _, bufsz := range []int{1, 3, 64} {
 		for ci, cf := range cfgs {
-			c.Do("lz4-being-written-removed", 6+ci%2, zcase(cf.max, cf.cut, nil, [][]byte{[]byte("ab\nc"), []byte("d\n\nefg")}, 3, 7), true)
+			c.Do("lz4-being-written-removed", 6+ci%2, zcase(cf.max, cf.cut, nil, [][]byte{[]byte("ab\nc"), []byte("d\n\nefg")}, bufsz, 7), true)
+			c.Do("lz4-being-written-removed", 6+ci%2, zcase(cf.max, cf.cut, []int64{3}, [][]byte{[]byte("ab\nc"), []byte("d\n\nefg")}, bufsz, 7), true)
 		}
 	}
 }
